@@ -203,6 +203,30 @@ def histories(M, rec, rng, reps):
                 d = rng.choice(Dd) if rng.random() < 0.4 else None
                 op = ("add_path", path, o, d)
                 D.callform(net.add_path, D.ORDER["add_path"], {"path": path, "origin": o, "destination": d}, 1)
+            if op[0] == "add_path" and rng.random() < 0.2:
+                # a road tree walked depth-first: while a lazy path is being consumed it lays a branch (another
+                # add_path on the same network, from fresh objects so that nothing is replaced) and goes on
+                u0 = rng.choice(N)
+                trunk = [u0, M.Link(1, 2, 1.0, 180.0, 33.0, 100.0, 1.8), M.Node(), M.Link(1, 2, 1.0, 180.0, 33.0, 100.0, 1.8), M.Node(),
+                         M.Link(1, 2, 1.0, 180.0, 33.0, 100.0, 1.8), M.Node()]
+                branch = [trunk[2], M.Link(1, 2, 1.0, 180.0, 33.0, 100.0, 1.8), M.Node(), M.Link(1, 2, 1.0, 180.0, 33.0, 100.0, 1.8), M.Node()]
+                at = rng.choice((3, 4))  # the branch is laid after the junction node, or between a link and its node
+
+                def walk():
+                    for i_, p_ in enumerate(trunk):
+                        if i_ == at:
+                            net.add_path(iter(branch) if rng.random() < 0.5 else tuple(branch))
+                        yield p_
+
+                try:
+                    net.add_path(walk())
+                except Exception as e:
+                    rec.violation(f"{PROP}:add_path: a well-formed lazy path that lays a branch meanwhile was rejected with {type(e).__name__}",
+                                  {"exception": repr(e)[:300]})
+                st = netmon.model_apply(st, op)
+                st = netmon.model_apply(st, ("add_path", branch, None, None))
+                op = ("add_path", trunk, None, None)
+                rec.count("nested_path_constructions")
             hist.append(op[0])
             st = netmon.model_apply(st, op)
             rec.count("history_calls")
